@@ -724,6 +724,10 @@ class ItemGrader(AbstractGrader):
         grader configuration. The actual inference is done by infer_from_expect,
         which can be shadowed.
         """
+        # An earlier call may have failed after creating its debug log (during inference
+        # or input validation); make sure that this call starts a new log
+        self.log_created = False
+
         # If expect is provided, infer an answer if we either don't have an answer or
         # are always inferring answers
         if expect is not None and (self.inferring_answers or not self.config['answers']):
